@@ -6,6 +6,7 @@ import (
 	"strings"
 
 	"verif/harness/app"
+	"verif/harness/codec"
 	"verif/harness/vk"
 )
 
@@ -79,7 +80,36 @@ func c07Profile(r *vk.RNG) app.Profile {
 	return p
 }
 
+// deepApp: a descending cycle root -> ping -> pong -> ping ... ('1' descends, '0' ascends), optionally
+// loading a symbol per level, so that very deep stacks and very large snapshots are saved and resumed.
+func deepApp(loadPerLevel bool, big int) *app.App {
+	a := app.NewApp()
+	a.FlagCount = 1
+	mk := func(name, down string) *app.Node {
+		var code []codec.Ins
+		if loadPerLevel {
+			code = append(code, codec.Ins{Op: codec.LOAD, S1: "lv" + name, N: 0}, codec.Ins{Op: codec.RELOAD, S1: "shared"})
+		}
+		code = append(code, codec.Ins{Op: codec.MOUT, S1: "deeper", S2: "1"}, codec.Ins{Op: codec.MOUT, S1: "back", S2: "0"}, codec.Ins{Op: codec.HALT},
+			codec.Ins{Op: codec.INCMP, S1: down, S2: "1"}, codec.Ins{Op: codec.INCMP, S1: "_", S2: "0"})
+		return &app.Node{Name: name, Code: code, Template: "this is " + name}
+	}
+	root := mk("root", "ping")
+	root.Code = append([]codec.Ins{{Op: codec.LOAD, S1: "shared", N: 0}}, root.Code...)
+	a.AddNode(root)
+	a.AddNode(mk("ping", "pong"))
+	a.AddNode(mk("pong", "ping"))
+	a.AddNode(&app.Node{Name: "_catch", Template: "catch page", Code: []codec.Ins{{Op: codec.HALT}, {Op: codec.INCMP, S1: "_", S2: "*"}}})
+	for _, n := range []string{"root", "ping", "pong"} {
+		a.Funcs["lv"+n] = &app.FuncSpec{Sym: "lv" + n, Kind: "len", Lens: []int{big, 3, big / 2}}
+	}
+	a.Funcs["shared"] = &app.FuncSpec{Sym: "shared", Kind: "id"}
+	a.Finalize()
+	return a
+}
+
 func runC07(c *vk.Ctx) {
+	runC07Deep(c)
 	n := c.N(1600, 60000)
 	for i := 0; i < n; i++ {
 		if !c.Mine(i) {
@@ -97,6 +127,46 @@ func runC07(c *vk.Ctx) {
 		}
 		hist := a.History(r, r.Range(3, 25))
 		c.Begin(key)
+		c07Compare(c, key, a, cfg, hist, i < 1)
+	}
+}
+
+// runC07Deep: very deep stacks (up to and beyond the 128-level limit) and very large snapshots.
+func runC07Deep(c *vk.Ctx) {
+	type dc struct {
+		name  string
+		depth int
+		load  bool
+		big   int
+	}
+	var cases []dc
+	for _, d := range []int{100, 125, 126, 127, 128, 129, 131} {
+		cases = append(cases, dc{fmt.Sprintf("deep/%d", d), d, false, 0})
+	}
+	cases = append(cases, dc{"deep/loaded/60", 60, true, 40}, dc{"deep/loaded/127", 127, true, 10}, dc{"deep/big/12", 12, true, 70000}, dc{"deep/big/30", 30, true, 9000})
+	for i, dcase := range cases {
+		if !c.Mine(i) || !c.Want(dcase.name) {
+			continue
+		}
+		a := deepApp(dcase.load, dcase.big)
+		cfg := app.Config{FlagCount: 1, SessionId: "deep", Root: "root"}
+		hist := []string{""}
+		for k := 0; k < dcase.depth; k++ {
+			hist = append(hist, "1")
+		}
+		hist = append(hist, "0", "0", "1", "x", "0")
+		c.Begin(dcase.name)
+		c07Compare(c, dcase.name, a, cfg, hist, false)
+		c.Count("deep_histories", 1)
+	}
+}
+
+func c07Compare(c *vk.Ctx, key string, a *app.App, cfg app.Config, hist []string, sample bool) {
+	{
+		i := 1
+		if sample {
+			i = 0
+		}
 		// reference: long-lived
 		ll := app.NewLongLived(a, cfg)
 		var ref []*app.Obs
